@@ -18,6 +18,32 @@ register("C16",
     "abstract interpretation of the clang AST over a sign-atom domain (path-enumerating symbolic evaluation, no execution), decision-table "
     "equivalence against exact reference predicates",
     "DESIGN.md §5 C16")
+register("C01",
+    "Decides the reporting half structurally, for all paths: every normal return / copyResult() of Solver::satisfy, Solver::refine and "
+    "both IncSolver::satisfy copies is dominated by a complete scan of all m constraints that throws on slack < threshold<=0 (no "
+    "iteration can skip the test, the failing branch always throws); solve() only returns through satisfy()/refine()/copyResult(); "
+    "slack() is +DBL_MAX for flagged constraints and right-gap-left otherwise (symbolic identity); only the reviewed functions write "
+    "Constraint::unsatisfiable / Variable::finalPosition; the two solver copies agree function by function. Does not decide that "
+    "merging/splitting reaches feasibility, the iff-infeasible clause, or finiteness.",
+    "Trusted: clang CFG without exception edges; tables/c01_writers.json and tables/siblings.json (reviewed, with reasons).",
+    "CFG dominance / must-pass-through rules, who-writes over the resolved AST, symbolic evaluation of slack(), sibling structural comparison",
+    "DESIGN.md §5 C01")
+register("C02",
+    "Optimality itself is numerical and not decided. Decided, by symbolic interpretation of the solver's arithmetic kernels in both copies: "
+    "block placement is the least-squares stationary point (rational identity for 1-3 scaled variables), dfdv()/cost() have the objective's "
+    "form, and compute_dfdv (both overloads) assigns multipliers satisfying KKT stationarity at every non-root variable of chain/fork "
+    "block trees; plus function-by-function agreement of the two solver copies.",
+    "Trusted: engine/microai; positivity of weights/scales (zero-denominator paths are outside the precondition); shapes up to 4 variables.",
+    "abstract interpretation over exact rational functions (symbolic KKT identities) + sibling structural comparison",
+    "DESIGN.md §5 C02")
+register("C09",
+    "For every path of removeoverlaps the global borders are restored at normal exit; every Rectangle mover reachable from it is "
+    "size-preserving and attains the requested coordinate (symbolic affine evaluation); no other writer of a rectangle extent is reachable; "
+    "every generated constraint is left + (ext(a)+ext(b))/2 <= right with the right dimension and side; the scan-line comparator does not "
+    "order by addresses before ids. Does not decide that the constraint set removes all overlap, nor the <1% bound for fixed rectangles.",
+    "Trusted: clang CFG (no exception edges: the catch(char*) path is out of scope); call graph over resolved callees.",
+    "CFG pairing rule, call-graph reachability + who-writes, symbolic affine evaluation, semantic template match of constraint constructions",
+    "DESIGN.md §5 C09")
 for _p, _r in {
  "C06": "equality of route costs between an incrementally edited router and a fresh one quantifies over run-time visibility-graph contents after arbitrary edit histories; no rule over code shape is a necessary condition of it",
  "C12": "tree-ness and terminal preservation of hyperedges are invariants of dynamically rewritten run-time graphs; not visible in code shape",
